@@ -8,6 +8,8 @@
 #include "llbuild/Core/BuildEngine.h"
 
 #include <atomic>
+#include <dlfcn.h>
+#include <spawn.h>
 #include <condition_variable>
 #include <memory>
 #include <mutex>
@@ -260,10 +262,26 @@ struct ProcDelegate : public QDelegate {
     if (cancelReturned && cancelReturned->load()) ++startedAfterCancel;
   }
 };
+// The moment a process is really created is the posix_spawn() call (interposed below), not the processStarted()
+// notification, which an implementation may deliver after it has left its critical section.
+static std::atomic<bool>* g_cancelReturnedForSpawn = nullptr;
+static std::atomic<int> g_spawnsAfterCancel{0};
+}  // namespace
+extern "C" int posix_spawn(pid_t* pid, const char* path, const posix_spawn_file_actions_t* fa, const posix_spawnattr_t* at,
+                           char* const argv[], char* const envp[]) {
+  typedef int (*fn_t)(pid_t*, const char*, const posix_spawn_file_actions_t*, const posix_spawnattr_t*, char* const[], char* const[]);
+  static fn_t real = (fn_t)dlsym(RTLD_NEXT, "posix_spawn");
+  if (g_cancelReturnedForSpawn && g_cancelReturnedForSpawn->load()) ++g_spawnsAfterCancel;
+  return real(pid, path, fa, at, argv, envp);
+}
+namespace {
+
 static void procBody(BodyCtx& ctx, int kind) {
   ProcDelegate del;
   std::atomic<bool> cancelReturned{false};
   del.cancelReturned = &cancelReturned;
+  g_cancelReturnedForSpawn = &cancelReturned;
+  g_spawnsAfterCancel = 0;
   std::atomic<int> completions{0};
   std::atomic<int> status{-1};
   Desc d0("p0");
@@ -284,7 +302,8 @@ static void procBody(BodyCtx& ctx, int kind) {
     q.reset();
   }
   if (completions != 1) ctx.fail("C16.proc-completion-count", "completion callback fired " + std::to_string(completions.load()) + " times for one launch");
-  if (del.startedAfterCancel != 0) ctx.fail("C16.proc-started-after-cancel", "a process was started after cancelAllJobs() had returned");
+  g_cancelReturnedForSpawn = nullptr;
+  if (g_spawnsAfterCancel != 0) ctx.fail("C16.proc-started-after-cancel", "a process was created (posix_spawn) after cancelAllJobs() had returned");
   if (del.startedTotal == 0 && status != (int)basic::ProcessStatus::Cancelled)
     ctx.fail("C16.proc-not-started-but-not-cancelled", "no process was started, yet the launch completed with status " + std::to_string(status.load()));
   ctx.outcome = std::string(del.startedTotal ? "spawned" : "not-spawned") + "/" + std::to_string(status.load());
